@@ -548,7 +548,7 @@ where
         // (vi) histories with the public fields re-assigned between steps: step; positions / step_size / n_leapfrog
         // replaced; step — each step is checked against the reference for the ACTUAL position, step size and L
         if c.l >= 1 && c.eps <= 0.9 && c.n <= 3 {
-            for variant in 0..3 {
+            for variant in 0..4 {
                 let mut s = mk();
                 let m: Vec<Vec<f64>> = (0..c.n).map(|i| (0..c.d).map(|k| [0.5, -0.5, 2.0][(i + k) % 3]).collect()).collect();
                 let case = json!({"backend": name, "target": rt.kind, "d": c.d, "eps": c.eps, "L": c.l, "n_chains": c.n, "field_mutation_history": variant});
@@ -569,15 +569,23 @@ where
                         eps2 = c.eps * 0.5;
                         s.step_size = f(eps2);
                     }
-                    _ => {
+                    2 => {
                         l2 = c.l + 1;
                         s.n_leapfrog = l2;
                     }
+                    _ => {
+                        // a batch with one MORE chain (another shape than the sampler was built with)
+                        let mut np: Vec<Vec<f64>> = starts.iter().map(|r| r.iter().map(|x| 0.7 * x - 0.1).collect()).collect();
+                        np.push(starts[0].iter().map(|x| -0.3 * x + 0.4).collect());
+                        s.positions = t2::<B>(&np);
+                    }
                 }
-                match instrumented_step(&mut s, Some(&m), Some(&vec![0.5; c.n])) {
+                let n2 = if variant == 3 { c.n + 1 } else { c.n };
+                let m: Vec<Vec<f64>> = (0..n2).map(|i| (0..c.d).map(|k| [0.5, -0.5, 2.0][(i + k) % 3]).collect()).collect();
+                match instrumented_step(&mut s, Some(&m), Some(&vec![0.5; n2])) {
                     Ok(r) => {
                         let before = ctx.n_violations();
-                        check_step(ctx, &rt, &r, eps2, l2, &tol, Some(&vec![0.5; c.n]), &case, f32_backend);
+                        check_step(ctx, &rt, &r, eps2, l2, &tol, Some(&vec![0.5; n2]), &case, f32_backend);
                         if ctx.n_violations() == before {
                             ctx.outcome("field-mutation histories ok", 1);
                         }
